@@ -1,11 +1,13 @@
 """C11 sampling rate follows the exporter's latest announcement."""
 from pipefam import *
 
-GEN = 'C06'
-MODEL_FN = 'Model/ProdNF.v:produce_nf (find_sampling, sstore keyed by (address, version, domain)), produce_v5'
+GEN = 'C11'
+MODEL_FN = ('Spec/RefRate.v:latest / anns / dgram_key (expected rates: the reference, written over the model pipe output by rate_run; '
+            'theorem c11_reference_run), Model/ProdNF.v:produce_nf (find_sampling, sstore), produce_v5')
 RULE = ('same histories as C06: several source ports per IP, versions {9,10}, 3 domains; one third of the messages '
         'carry an options template + options data record announcing 305, 50 or 34 (4-byte, sometimes 2- or 8-byte) '
-        'before or after the data sets; v5 datagrams carry their own interval; compared per datagram: error class and '
+        'before or after the data sets; v5 datagrams carry their own interval; expected rate of every v9/IPFIX message = '
+        'latest announcement under (address, version, domain read from the datagram bytes) per Spec/RefRate.v; compared per datagram: error class and '
         'the sampling_rate of every message. non-trivial = some message carries a non-zero rate; distinct by input')
 TRUSTED = ['Coq 8.16.1 kernel (coqc)', 'extraction + ocaml/main.ml glue',
            'Go harness harness/pipe.go, bin/engine.py, bin/pipefam.py',
